@@ -30,9 +30,12 @@ def run(tier="quick", seed=0):
         out.update([0.0, -0.0, 0.5, -0.5, 1e30, -1e30, 5e-324, -5e-324, 2.0 ** 63, -2.0 ** 63, 2.0 ** 64, 123.456, -77.7])
         return sorted(v for v in out if math.isfinite(v) and math.isfinite(v * 2.0 ** n_frac))
 
-    for signed in (True, False):
-        for n_bits in (8, 16, 32, 64, 13):
-            for n_frac in sorted({0, 1, n_bits // 2, n_bits - 1, n_bits, -2}):
+    # formats: the widths of the array types, an odd width, and - because a signed (n+1)-bit format and an unsigned n-bit format
+    # have the same number of value bits - their signed neighbours; every format is built twice in one process, in both orders
+    formats = [(sg, nb) for sg in (True, False) for nb in (8, 9, 16, 17, 32, 33, 64, 13)]
+    for signed, n_bits in formats + formats[::-1]:
+        if True:
+            for n_frac in sorted({0, 1, 4, n_bits // 2, n_bits - 1, n_bits, -2}):
                 conv = tc.float_to_fp(signed, n_bits, n_frac)
                 back = tc.fp_to_float(n_frac)
                 vs = inputs(signed, n_bits, n_frac)
@@ -107,6 +110,6 @@ def run(tier="quick", seed=0):
                                              "inputs": {"signed": signed, "n_bits": n_bits, "n_frac": n_frac, "value": repr(v)}})
     samples.append({"float_to_fp(True, 8, 4)": [[v, tc.float_to_fp(True, 8, 4)(v)] for v in (-8.0, -0.26, 7.95, 100.0)]})
     return {"name": "c16_typecasts", "evaluations": ev, "distinct_nontrivial": len(distinct),
-            "rule": "formats signed/unsigned x n_bits 8,16,32,64,13 x n_frac {0,1,n/2,n-1,n,-2}; inputs: both ends of the range, +-1 step, +-1 ulp, quarter steps, 0, +-0.5, +-1e30, subnormals, 2**63, 2**64; scalar result against exact rational scale/truncate/saturate, monotone over the sorted inputs, round trip of representable values, numpy converters element-wise against the scalar (shapes (), (n,), (1,n)), deprecated variants modulo 2**n",
+            "rule": "formats signed/unsigned x n_bits 8,9,16,17,32,33,64,13 x n_frac {0,1,4,n/2,n-1,n,-2}, each format built twice in one process (the list forwards, then backwards); inputs: both ends of the range, +-1 step, +-1 ulp, quarter steps, 0, +-0.5, +-1e30, subnormals, 2**63, 2**64; scalar result against exact rational scale/truncate/saturate, monotone over the sorted inputs, round trip of representable values, numpy converters element-wise against the scalar (shapes (), (n,), (1,n)), deprecated variants modulo 2**n",
             "bound": "the listed formats and inputs", "exhaustive": False, "label": "bounded", "samples": samples,
             "violations": viol, "seconds": round(time.time() - t0, 2)}
